@@ -5,10 +5,14 @@ C24 — frame property: once `Do` has returned, no action of any thread changes 
 import TdModel.Lemmas.C24Env
 namespace TdModel.Rpc
 
-macro "frame_close" : tactic =>
-  `(tactic| (simp [setCall, setNotif, finish, Call.finish, removeAck, Call.exitLoop, Call.retC, newCall] <;> grind [Inv]))
+macro "frame_close" hg:term : tactic =>
+  `(tactic| (simp [setCall, setNotif, finish, Call.finish, removeAck, exitAck, Call.exitLoop, Call.retC, newCall, Cfg.std_all $hg] <;>
+      grind [Inv]))
 
-theorem frozen_step {cfg : Cfg} {s s' : State} {a : Action} (h : Inv s)
+macro "frame_close0" : tactic =>
+  `(tactic| (simp [setCall, setNotif, removeAck, Call.exitLoop, Call.retC, newCall] <;> grind [Inv]))
+
+theorem frozen_step {cfg : Cfg} {s s' : State} {a : Action} (hg : cfg.std = true) (h : Inv s)
     {i : Nat} {c : Call} (hc : s.calls i = some c) (hr : c.ret ≠ none)
     (hs : step cfg s a = some s') : s'.calls i = some c := by
   have hpc : c.pc = .fin := (h.fin_ret i c hc).1 hr
@@ -23,30 +27,33 @@ theorem frozen_step {cfg : Cfg} {s s' : State} {a : Action} (h : Inv s)
     unfold stepStart at hs
     split at hs
     · simp at hs
-    · dsimp only at hs
-      split at hs <;> simp at hs <;> subst hs <;> frame_close
+    · try dsimp only at hs
+      split at hs <;> simp at hs <;> subst hs <;> frame_close0
   case sret j o =>
     unfold stepSret at hs
+    std_norm hg at hs
     split at hs
     · simp at hs
     · split at hs <;> try (simp at hs)
       all_goals (try split at hs) <;> try (simp at hs)
       all_goals (first | subst hs | (obtain ⟨_, hs⟩ := hs; subst hs))
-      all_goals frame_close
+      all_goals frame_close hg
   case loopSel j b =>
     unfold stepLoop at hs
+    std_norm hg at hs
     split at hs
     · simp at hs
     · split at hs
       · simp at hs
-      · dsimp only at hs
+      · try dsimp only at hs
         split at hs
         all_goals (split at hs <;> try (simp at hs))
         all_goals (try (split at hs <;> try (simp at hs)))
         all_goals (first | subst hs | (obtain ⟨_, hs⟩ := hs; subst hs))
-        all_goals frame_close
+        all_goals frame_close hg
   case waitSel j b =>
     unfold stepWait at hs
+    std_norm hg at hs
     split at hs
     · simp at hs
     · split at hs
@@ -55,39 +62,41 @@ theorem frozen_step {cfg : Cfg} {s s' : State} {a : Action} (h : Inv s)
         all_goals (split at hs <;> try (simp at hs))
         all_goals (try (split at hs <;> try (simp at hs)))
         all_goals (first | subst hs | (obtain ⟨_, hs⟩ := hs; subst hs))
-        all_goals frame_close
+        all_goals frame_close hg
   case dret j o =>
     unfold stepDret at hs
+    std_norm hg at hs
     split at hs
     · simp at hs
     · split at hs <;> simp at hs
       subst hs
-      frame_close
+      frame_close hg
   case gpass j =>
     unfold stepGpass at hs
+    std_norm hg at hs
     split at hs
     · simp at hs
     · split at hs <;> simp at hs
       subst hs
-      frame_close
+      frame_close hg
   case nstart nid t e v =>
     unfold stepNstart at hs
     split at hs
     · simp at hs
-    · dsimp only at hs
-      split at hs <;> simp at hs <;> subst hs <;> frame_close
+    · try dsimp only at hs
+      split at hs <;> simp at hs <;> subst hs <;> frame_close0
   case nrun nid =>
     unfold stepNrun at hs
     split at hs
     · simp at hs
     · split at hs
-      · simp at hs; subst hs; frame_close
+      · simp at hs; subst hs; frame_close0
       · split at hs
         · simp at hs
-        · split at hs <;> simp at hs <;> subst hs <;> frame_close
+        · split at hs <;> simp at hs <;> subst hs <;> frame_close0
       · split at hs
         · simp at hs
-        · split at hs <;> simp at hs <;> subst hs <;> frame_close
+        · split at hs <;> simp at hs <;> subst hs <;> frame_close0
       · simp at hs
   case nwrite nid o =>
     unfold stepNwrite at hs
@@ -96,26 +105,44 @@ theorem frozen_step {cfg : Cfg} {s s' : State} {a : Action} (h : Inv s)
     · split at hs
       · split at hs
         · simp at hs
-        · simp at hs; subst hs; frame_close
+        · simp at hs; subst hs; frame_close0
       · simp at hs
   case ack ids =>
     cases hs
-    simp [stepAck, hc, hack]
+    have key : ∀ (ids : List Nat) (t : State), (t.calls i = some c ∧ t.ack i = false) →
+        ((stepAck cfg t ids).calls i = some c ∧ (stepAck cfg t ids).ack i = false) := by
+      intro ids
+      refine stepAck_induct cfg (P := fun t => t.calls i = some c ∧ t.ack i = false) ?_ ids
+      intro t id ⟨h1, h2⟩
+      unfold ackOne
+      by_cases hk : t.ack id = true
+      · have hne : id ≠ i := by intro e; rw [e, h2] at hk; cases hk
+        simp only [hk, if_true]
+        cases hci : t.calls id with
+        | none => exact ⟨h1, h2⟩
+        | some ci =>
+          by_cases ha : ci.acked = true
+          · simp [ha, h1, h2]
+          · simp [ha, setCall, removeAck, h1, h2, Ne.symm hne]
+            split <;> simp [removeAck, h1, h2, Ne.symm hne]
+      · simp only [hk]; exact ⟨h1, h2⟩
+    exact (key ids s ⟨hc, hack⟩).1
   case cancel j =>
     unfold stepCancel at hs
     split at hs
     · simp at hs
     · split at hs <;> simp at hs <;> subst hs
-      · frame_close
+      · frame_close0
       · exact hc
   case advance d =>
     cases hs
     simp [stepAdvance, hc, Call.tickTimer, htm]
-  case close => cases hs; exact hc
-  case fclose => cases hs; exact hc
+  case close k => split at hs <;> simp at hs; subst hs; exact hc
+  case fclose k => split at hs <;> simp at hs; subst hs; exact hc
+  case cret k => split at hs <;> simp at hs; subst hs; exact hc
 
 /-- A returned call stays exactly as it was along any further action list. -/
-theorem frozen_run {cfg : Cfg} (hg : cfg.guard = true) {as : List Action} {s s' : State} (h : Inv s)
+theorem frozen_run {cfg : Cfg} (hg : cfg.std = true) {as : List Action} {s s' : State} (h : Inv s)
     {i : Nat} {c : Call} (hc : s.calls i = some c) (hr : c.ret ≠ none)
     (hs : run cfg s as = some s') : s'.calls i = some c := by
   induction as generalizing s with
@@ -123,7 +150,7 @@ theorem frozen_run {cfg : Cfg} (hg : cfg.guard = true) {as : List Action} {s s' 
   | cons a as ih =>
     simp only [run] at hs
     split at hs
-    · next s1 h1 => exact ih (inv_step hg h h1) (frozen_step h hc hr h1) hs
+    · next s1 h1 => exact ih (inv_step hg h h1) (frozen_step hg h hc hr h1) hs
     · simp at hs
 
 end TdModel.Rpc
